@@ -178,9 +178,12 @@ func init() {
 			}
 			atoms = append(atoms, gen.Atoms()...)
 			return &harness.Plan{
-				N:      size(tier, 150000, 2000000),
-				Setup:  func(c *harness.Ctx) { hooksOn() },
-				Run:    func(c *harness.Ctx, k int) { runC09(c, atoms) },
+				N:     size(tier, 150000, 2000000),
+				Setup: func(c *harness.Ctx) { hooksOn() },
+				Run: func(c *harness.Ctx, k int) {
+					hooksAlternate(k)
+					runC09(c, atoms)
+				},
 				Finish: reportHooks,
 				Required: []string{"rel:and", "rel:or", "rel:not", "rel:ne", "rel:mirror:<", "rel:mirror:<=", "rel:mirror:>", "rel:mirror:>=", "rel:mirror:==", "rel:mirror:!=",
 					"rel:le-union", "rel:ge-union", "container:array", "container:object", "members:0", "members:6"},
